@@ -2,7 +2,10 @@
 
 package client
 
-import "strings"
+import (
+	"sort"
+	"strings"
+)
 
 // C02 (a): no byte string makes ParseLine or the accessors panic.
 func VerifC02Parse() {
@@ -45,10 +48,26 @@ func VerifC02Prefixed() {
 	vReach("end")
 }
 
-var vC02Verbs = []string{
-	"001", "433", "CTCP", "NICK", "PING", "CAP", "410", "AUTHENTICATE", "903", "904", "908",
-	"JOIN", "KICK", "MODE", "PART", "QUIT", "TOPIC", "311", "324", "332", "352", "353", "671",
-	"PRIVMSG", "NOTICE",
+// vC02Verbs: every verb that has a built-in handler in the CURRENT source (read
+// from the real handler tables, so an added handler is covered) plus the two
+// verbs the parser rewrites.
+func vC02Verbs() []string {
+	seen := map[string]bool{"PRIVMSG": true, "NOTICE": true}
+	verbs := []string{"PRIVMSG", "NOTICE"}
+	for v := range intHandlers {
+		if !seen[v] && v != REGISTER {
+			seen[v] = true
+			verbs = append(verbs, v)
+		}
+	}
+	for v := range stHandlers {
+		if !seen[v] {
+			seen[v] = true
+			verbs = append(verbs, v)
+		}
+	}
+	sort.Strings(verbs)
+	return verbs
 }
 
 func vNewConn(track bool) *Conn {
@@ -65,6 +84,7 @@ func vNewConn(track bool) *Conn {
 // and without state tracking (the real tracker underneath): no panic escapes
 // the dispatcher (panics inside a handler are caught by the configured Recover).
 func VerifC02Handlers() {
+	vSetOpt("deadlockIsViolation", 1)
 	track := vLen("track", 0, 1) == 1
 	conn := vNewConn(track)
 	if track {
@@ -74,20 +94,38 @@ func VerifC02Handlers() {
 		conn.st.NewNick("n")
 		conn.st.Associate("#c", "n")
 	}
-	v := vLen("verb", 0, len(vC02Verbs)-1)
+	verbs := vC02Verbs()
+	vAssert(len(verbs) >= 25, "handler-tables-read")
+	v := vLen("verb", 0, len(verbs)-1)
 	src := ""
 	if vLen("hassrc", 0, 1) == 1 {
 		src = ":n!u@h "
 	}
 	rest := vStr("rest", vLen("restlen", 0, vParam("L", 4)))
 	vASCII(rest)
-	s := src + vC02Verbs[v] + rest
+	s := src + verbs[v] + rest
 	l := ParseLine(s)
 	if l != nil {
 		conn.dispatch(l)
 		vRunPending()
 	}
 	_ = vDrain(conn)
+	// ... and the connection keeps working: well-formed lines that follow (one of the same
+	// verb family, a PING, a PRIVMSG) are still handled - nothing is left locked or wedged
+	got := 0
+	conn.HandleFunc("PRIVMSG", func(*Conn, *Line) { got++ })
+	for _, next := range []string{":srv CAP * LS :a b", ":srv CAP * ACK :a", "PING :tok", ":srv 433 * me :in use", ":n!u@h PRIVMSG #c :still alive"} {
+		conn.dispatch(ParseLine(next))
+		vRunPending()
+	}
+	out := vDrain(conn)
+	pong := false
+	for _, o := range out {
+		pong = pong || o == "PONG :tok"
+	}
+	vAssert(pong, "later-PING-still-answered")
+	vAssert(got == 1, "later-line-still-dispatched")
+	vAssert(conn.SupportsCapability("a") && conn.HasCapability("a"), "capability-state-still-works")
 	vReach("end")
 }
 
@@ -129,5 +167,55 @@ func VerifC02Recv() {
 		vAssert(last.Cmd == "PRIVMSG" && len(last.Args) == 2 && last.Args[0] == "#c" && last.Args[1] == "hi", "later-line-processed")
 		vAssert(last.Raw == "PRIVMSG #c :hi", "later-line-raw")
 	}
+	vReach("end")
+}
+
+// vC02Shapes: for the verbs with protocol structure, well-formed beginnings
+// after which the symbolic suffix lands in the parameter a handler dissects.
+var vC02Shapes = []string{
+	"CAP * LS :", "CAP * ACK :", "CAP * NAK :", "CAP * LS ", "CAP me ",
+	":srv 001 me :", ":srv 001 ", ":srv 433 * ", ":srv 433 me ",
+	":n!u@h MODE #c ", ":n!u@h MODE #c +o ", ":n!u@h MODE #c +kl ", ":me MODE me ",
+	":srv 353 me = #c :", ":srv 353 me = ", ":srv 352 me #c u h s n ", ":srv 352 me #c u h s n H :",
+	":n!u@h JOIN ", ":me!u@h JOIN ", ":n!u@h KICK #c ", ":n!u@h PART ", ":n!u@h TOPIC #c :", ":n!u@h NICK ",
+	":srv 324 me #c ", ":srv 332 me #c :", ":srv 311 me n u h * :", ":srv 671 me ", "AUTHENTICATE ",
+	":n!u@h PRIVMSG me :\001", ":n!u@h PRIVMSG me :\001PING ", ":n!u@h PRIVMSG me :\001VERSION",
+}
+
+// C02 (b'): the same as VerifC02Handlers but the symbolic bytes come after a
+// well-formed beginning, so they reach the parameters the handlers dissect.
+func VerifC02HandlerShapes() {
+	vSetOpt("deadlockIsViolation", 1)
+	track := vLen("track", 0, 1) == 1
+	conn := vNewConn(track)
+	if track {
+		conn.st.NewChannel("#c")
+		conn.st.Associate("#c", "me")
+		conn.st.NewNick("n")
+		conn.st.Associate("#c", "n")
+	}
+	shape := vC02Shapes[vLen("shape", 0, len(vC02Shapes)-1)]
+	rest := vStr("rest", vLen("restlen", 0, vParam("L", 2)))
+	vASCII(rest)
+	l := ParseLine(shape + rest)
+	if l != nil {
+		conn.dispatch(l)
+		vRunPending()
+	}
+	_ = vDrain(conn)
+	got := 0
+	conn.HandleFunc("PRIVMSG", func(*Conn, *Line) { got++ })
+	for _, next := range []string{":srv CAP * LS :a b", ":srv CAP * ACK :a", "PING :tok", ":n!u@h PRIVMSG #c :still alive"} {
+		conn.dispatch(ParseLine(next))
+		vRunPending()
+	}
+	out := vDrain(conn)
+	pong := false
+	for _, o := range out {
+		pong = pong || o == "PONG :tok"
+	}
+	vAssert(pong, "later-PING-still-answered")
+	vAssert(got == 1, "later-line-still-dispatched")
+	vAssert(conn.SupportsCapability("a") && conn.HasCapability("a"), "capability-state-still-works")
 	vReach("end")
 }
